@@ -15,8 +15,75 @@ import YtkProofs.K8s
 import YtkProofs.RebuildB
 import YtkProofs.ValidB
 import YtkProofs.Decisions
+import YtkProofs.Decisions2
 
 namespace Ytk.C17
+
+/-! ## decision tables regenerated from the source (extract/tables2.go) -/
+section DecisionTables2
+open Ytk.TableT Ytk.K8s
+
+/-- a codec that is never run: only the constructor of `Mode` matters for `Mode.fns` -/
+def noCodec : Codec := ⟨fun _ => none, fun _ => none⟩
+
+/-- (i) The wiring of the Document constructors (k8s.YamlDoc / JsonDoc / Properties) as regenerated
+    from k8s/embedded.go IS the model's: which decoder and encoder constructor, with which item and which
+    text codec; every pair is the pair behind one of the model's two modes, and the model's
+    `decodeWith` / `encodeWith` run the decoder and the encoder of ONE codec on ONE item.  The
+    os.OpenFile calls (flags, mode) and the step list of doc.Save are the model's, and with the flags
+    regenerated for doc.Save a file holds exactly what Save wrote, whatever it held before — which is
+    how `docSave` represents the file. -/
+theorem k8s_embedded_table_matches_model :
+    Generated.k8sDocCtors = K8s.docCtorTable ∧
+    (∀ w ∈ Generated.k8sDocCtors, (w.decFn, w.encFn) ∈ [(Mode.text noCodec "").fns, Mode.props.fns]) ∧
+    (∀ (c : Codec) (item : String) (m : Manifest) (n : Node),
+      decodeWith (.text c item) m = decodeEmbeddedDoc c item m ∧
+      encodeWith (.text c item) m n = encodeEmbeddedDoc c item m n ∧
+      decodeWith .props m = .ok (decodeEmbeddedProps m) ∧
+      encodeWith .props m n = .ok (encodeEmbeddedProps m n)) ∧
+    Generated.openCalls = K8s.openTable ∧
+    Generated.k8sSaveSteps = saveStepsM ∧ Generated.k8sSaveLoop = saveLoopM ∧ Generated.k8sSaveFinal = saveFinalM ∧
+    (∀ (old : Option (List UInt8)) (new : List UInt8),
+      fileAfterOpenWrite (flagsOf Generated.openCalls "k8s.doc.Save") old new = some new) :=
+  ⟨by decide +kernel, by decide +kernel, mode_wiring, by decide +kernel, by decide +kernel, by decide +kernel,
+   by decide +kernel,
+   fun old new => fileAfterOpenWrite_trunc _ old new (by decide +kernel) (by decide +kernel) (by decide +kernel)⟩
+
+/-- (ii) The rule of the property on the regenerated tables ("once edited and saved, reopens equal to
+    the edited document"): YamlDoc and JsonDoc decode and encode the SAME item of the manifest with the
+    decoder and the encoder of the SAME format — the pair the file-suffix tables of common.go (first
+    batch) give one suffix; Properties uses the properties pair; doc.Save opens read-write, creating and
+    TRUNCATING (a shorter document leaves no stale tail), mode 0644; it encodes into the manifest first,
+    then opens, then writes the manifest, stops at the first error, and closes the file last. -/
+theorem k8s_embedded_table_rule :
+    (∀ w ∈ Generated.k8sDocCtors, w.manifest = "arg0" ∧
+      ((w.decFn = "DecodeEmbeddedDoc" ∧ w.encFn = "EncodeEmbeddedDoc" ∧
+        w.decArgs[0]? = some "arg1" ∧ w.encArgs[0]? = some "arg1" ∧
+        (∃ r ∈ Generated.fileDecoders, some r.target = w.decArgs[1]? ∧
+          some (lookupD Generated.fileEncoders "nil" r.key) = w.encArgs[1]?) ∧
+        (∃ f ∈ codecFamilies, some f.2.1 = w.decArgs[1]? ∧ some f.2.2 = w.encArgs[1]?)) ∨
+       (w.decFn = "DecodeEmbeddedProps" ∧ w.encFn = "EncodeEmbeddedProps" ∧ w.decArgs = [] ∧ w.encArgs = []))) ∧
+    Generated.k8sDocCtors.map (·.ctor) = ["JsonDoc", "Properties", "YamlDoc"] ∧
+    flagsOf Generated.openCalls "k8s.doc.Save" = ["O_CREATE", "O_RDWR", "O_TRUNC"] ∧
+    (Generated.openCalls.find? (·.site == "k8s.doc.Save")).map (·.mode) = some 0o644 ∧
+    flagsOf Generated.openCalls "k8s.builderImpl.Create" = ["O_CREATE", "O_RDWR"] ∧
+    Generated.k8sSaveSteps.length = 3 ∧
+    ((["return recv.enc(", "v1,v0=os.OpenFile(", "_,v0=recv.m.WriteTo("].zip Generated.k8sSaveSteps).all
+      fun p => p.1.isPrefixOf p.2) = true ∧
+    Generated.k8sSaveLoop = ["if v0=step();v0!=nil{return v0}"] ∧
+    Generated.k8sSaveFinal = "return v1.Close()" := by
+  decide +kernel
+
+/-- (iii) the tables are not empty: three constructors, three open calls at distinct sites, three steps -/
+theorem nonvacuous_k8s_embedded_tables :
+    Generated.k8sDocCtors.length = 3 ∧ (Generated.k8sDocCtors.map (·.ctor)).Nodup ∧
+    Generated.openCalls.length = 3 ∧ (Generated.openCalls.map (·.site)).Nodup ∧
+    (∀ c ∈ Generated.openCalls, c.flags.Nodup ∧ c.flags ≠ []) ∧ Generated.k8sSaveSteps.length = 3 ∧
+    fileAfterOpenWrite (flagsOf Generated.openCalls "k8s.builderImpl.Create") (some [1, 2, 3]) [9] = some [9, 2, 3] := by
+  decide +kernel
+
+end DecisionTables2
+
 open Ytk.K8s
 
 /-! ## decision tables regenerated from the source (extract/tables.go) -/
